@@ -60,22 +60,28 @@ def b1(fb, chk):
     if flag_field is None:
         chk.anchor_missing("B1", "reply-ack flag of the proxy")
         return
-    # header flags 0, NEED_REPLY set under the flag only
-    news = sites(f, name="new")
-    okflags = news and all(const_eval(fb, m.sym, m.sym.arg_terms(bb)[1]) == 0 for bb, t, c in news)
-    chk.check(bool(okflags), "B1", "proxy:header-flags", "request header built with flags 0", "proxy builds request headers with non-zero constant flags", f.loc())
-    sn = sites(f, name="set_need_reply")
-    good = len(sn) == 1
-    for bb, t, c in sn:
-        v = const_eval(fb, m.sym, m.sym.arg_terms(bb)[1])
-        fact = any(a[0] == "true" and field_of(a[1])[1] == flag_field for a in m.atoms_at(bb))
-        good = good and v == 1 and fact
-    # the send must not be dominated by the flag (both branches reach it)
-    for bb, t, c in sites(f, name="send_message", self_adt="Endpoint"):
-        unconditional = not any(a[0] in ("true", "false") and field_of(a[1])[1] == flag_field for a in m.atoms_at(bb))
-        good = good and unconditional
-    chk.check(good, "B1", "proxy:need-reply", "NEED_REPLY is set exactly when %s is true; the request is sent either way" % flag_field,
-              "proxy does not set NEED_REPLY exactly under the negotiated reply-ack flag", f.loc())
+    # the flags word of the request actually handed to the socket, on every path: version only (0x1) when the reply-ack
+    # flag is off, version | NEED_REPLY (0x9) when it is on - whatever way the header is put together
+    from . import headers
+    fi, hs = headers.sent_headers(fb, f)
+    probs = set()
+    on = off = 0
+    for h in hs:
+        t_on = any(a[0] == "true" and field_of(a[1])[1] == flag_field for a in h["atoms"])
+        t_off = any(a[0] == "false" and field_of(a[1])[1] == flag_field for a in h["atoms"])
+        want = (wire.FLAG_VERSION | wire.FLAG_NEED_REPLY) if t_on else (wire.FLAG_VERSION if t_off else None)
+        if want is None:
+            probs.add("a request is sent on a path that never tested %s" % flag_field)
+        elif h["flags_value"] != want:
+            probs.add("flags %s with %s=%s (want %#x)" % (hex(h["flags_value"]) if h["flags_value"] is not None else show(h["flags"])[:50], flag_field, t_on, want))
+        on += 1 if t_on else 0
+        off += 1 if t_off else 0
+    chk.check(bool(hs) and not [p_ for p_ in probs if "flags " in p_], "B1", "proxy:header-flags",
+              "request flags word is 0x1 / 0x9 by the reply-ack flag (%d send paths)" % len(hs),
+              "proxy request header: %s" % "; ".join(sorted(probs)), f.loc())
+    chk.check(on >= 1 and off >= 1 and not [p_ for p_ in probs if "never tested" in p_], "B1", "proxy:need-reply",
+              "NEED_REPLY is set exactly when %s is true; the request is sent either way" % flag_field,
+              "proxy does not set NEED_REPLY exactly under the negotiated reply-ack flag (paths with flag on: %d, off: %d; %s)" % (on, off, "; ".join(sorted(probs))), f.loc())
     # order: send then wait; result is the wait's result
     ret = m.sym.local(0)
     alts = list(ret[2]) if ret[0] == "phi" else [ret]
